@@ -24,7 +24,7 @@ open Spec.SysV (Ty GPR)
     (`sysv_interop_full_fails` below); the theorems of this file prove the rest, and the first two
     under the guard `StackArgsWordSized`. -/
 def sysv_interop_full : Prop :=
-  (∀ sig rv, ∃ c, genCall sig rv = .ok c) ∧
+  (∀ sig rv ind, ∃ c, genCall sig rv ind = .ok c) ∧
   (∀ sig, ∃ is, genFunctionEnter sig = .ok is) ∧
   (∀ sig, (determineArgLocations sig).map Loc.toSpec = (Spec.SysV.argLocs sig).map some)
 
@@ -306,8 +306,8 @@ theorem pushArgs_ok_iff (l : List (Nat × Ty)) :
       exact ⟨q ++ p, by rw [hq, hp]⟩
 
 /-- `gen_call` produces code exactly for the guarded signatures (otherwise NotImplementedError) -/
-theorem gen_call_defined_iff (sig : List Ty) (rv : Option Ty) :
-    (∃ c, genCall sig rv = .ok c) ↔ StackArgsWordSized sig := by
+theorem gen_call_defined_iff (sig : List Ty) (rv : Option Ty) (ind : Bool) :
+    (∃ c, genCall sig rv ind = .ok c) ↔ StackArgsWordSized sig := by
   unfold StackArgsWordSized
   rw [show (∀ it ∈ memArgs sig, vregClass it.2 = .r64 0 ∨ vregClass it.2 = .r32 0)
         ↔ (∀ it ∈ (memArgs sig).reverse, vregClass it.2 = .r64 0 ∨ vregClass it.2 = .r32 0) by simp]
@@ -341,7 +341,7 @@ theorem callPost_rsp (rv : Option Ty) (total : Nat) (s2 : MState) :
        call − 16) holds the value of that argument's virtual register;
     3. after the call the post sequence brings `rsp` back;
     4. the result is fetched from the psABI return register. -/
-theorem call_site_partial (sig : List Ty) (rv : Option Ty) (c : CallSeq) (h : genCall sig rv = .ok c) (s : MState) :
+theorem call_site_partial (sig : List Ty) (rv : Option Ty) (ind : Bool) (c : CallSeq) (h : genCall sig rv ind = .ok c) (s : MState) :
     c.stackSize % 16 = 0 ∧
     (run c.pre s).reg 4 = s.reg 4 - c.stackSize ∧
     (∀ i off, Spec.SysV.argLoc sig i = .mem off → i < sig.length →
@@ -444,8 +444,8 @@ theorem toSpec_parent (r : Reg) (loc : Spec.SysV.Loc) (h : r.toSpec = some loc) 
 /-- **Call sites, register arguments (partial, same guard).**  At the `call` instruction every
     argument that the psABI passes in a register is in that register (`rdi rsi rdx rcx r8 r9`,
     `xmm0…7` – the 8/16-bit ones sign-extended through `rax`). -/
-theorem call_site_register_args_partial (sig : List Ty) (rv : Option Ty) (c : CallSeq)
-    (h : genCall sig rv = .ok c) (s : MState) (i : Nat) (hi : i < sig.length)
+theorem call_site_register_args_partial (sig : List Ty) (rv : Option Ty) (ind : Bool) (c : CallSeq)
+    (h : genCall sig rv ind = .ok c) (s : MState) (i : Nat) (hi : i < sig.length)
     (hreg : ∀ off, Spec.SysV.argLoc sig i ≠ .mem off) :
     (run c.pre s).reg (specId (Spec.SysV.argLoc sig i)) = s.reg (vreg i) := by
   simp only [genCall] at h
@@ -481,6 +481,56 @@ theorem call_site_register_args_partial (sig : List Ty) (rv : Option Ty) (c : Ca
         hpw sb (i, t, r) ht
       simp only at hmv
       rw [← toSpec_parent r _ hl, hmv, b2 _ (by simp [vreg]; omega) (by simp [vreg]), a2 _ (by simp [vreg]; omega)]
+
+/-- machine ids of everything a psABI callee may destroy: the caller-saved GPRs and all of xmm0–15 -/
+def sysvDestroyedIds : List Nat :=
+  Spec.SysV.callerSaved.map GPR.num ++ Spec.SysV.callerSavedXmm.map (16 + ·)
+
+/-- a psABI-conforming callee as the caller sees it: on return `rsp` and the callee-saved
+    registers are as they were at the call instruction; everything else may have changed -/
+def ConformingCallee (s1 s2 : MState) : Prop :=
+  s2.reg 4 = s1.reg 4 ∧ ∀ g ∈ Spec.SysV.calleeSaved, s2.reg g.num = s1.reg g.num
+
+/-- **The clobber set of the call instruction (direct AND indirect form).**  The `clobbers=` list
+    the emitted `Call` / `CallReg` carries (what the register allocator will not keep a value in
+    across the call) contains every register a psABI callee may destroy; hence every hardware
+    register (ids 0‥31) outside the clobber set keeps its value across a call to ANY conforming
+    callee – whatever the caller parks there survives.  Guard: `gen_call` defined. -/
+theorem call_unclobbered_survive_partial (sig : List Ty) (rv : Option Ty) (ind : Bool) (c : CallSeq)
+    (h : genCall sig rv ind = .ok c) :
+    c.indirect = ind ∧
+    (∀ r ∈ sysvDestroyedIds, r ∈ c.clobbers) ∧
+    (∀ s1 s2 : MState, ConformingCallee s1 s2 → ∀ r, r < 32 → r ∉ c.clobbers → s2.reg r = s1.reg r) := by
+  simp only [genCall] at h
+  split at h
+  · simp at h
+  simp only [Except.ok.injEq] at h
+  subst h
+  simp only [ite_self]
+  refine ⟨trivial, by decide, ?_⟩
+  intro s1 s2 hc r hr hn
+  have key : ∀ r, r < 32 → r ∉ callerSave.map Reg.parent → r = 4 ∨ r ∈ Spec.SysV.calleeSaved.map GPR.num := by decide
+  rcases key r hr hn with h4 | hcs
+  · subst h4; exact hc.1
+  · obtain ⟨g, hg, rfl⟩ := List.mem_map.1 hcs
+    exact hc.2 g hg
+
+/-- the `clobbers` of the REAL call instructions (`Call` from `gen_call` with a label callee,
+    `CallReg` from `gen_call` with a register callee; regenerated on every run) are the model's list … -/
+theorem gen_call_clobbers_are_model :
+    Gen.X64ABI.callClobbersDirect.map ofRow = callerSave.map some ∧
+    Gen.X64ABI.callClobbersIndirect.map ofRow = callerSave.map some := by decide +kernel
+
+/-- … and cover the psABI caller-saved set: every register a callee may destroy, and every
+    allocatable register that is not psABI callee-saved, is in the clobbers of both call forms -/
+theorem gen_call_clobbers_cover_sysv :
+    sysvDestroyedIds.all (fun r => (Gen.X64ABI.callClobbersDirect.map rowId).contains r &&
+                                   (Gen.X64ABI.callClobbersIndirect.map rowId).contains r) = true ∧
+    Gen.X64ABI.allocatable.all (fun r =>
+      (Spec.SysV.calleeSaved.map GPR.num).contains (rowId r) ||
+      ((Gen.X64ABI.callClobbersDirect.map rowId).contains (rowId r) &&
+       (Gen.X64ABI.callClobbersIndirect.map rowId).contains (rowId r))) = true := by
+  decide +kernel
 
 /-! ## 5. function entry: every parameter is read from its psABI location -/
 
@@ -543,7 +593,7 @@ example : determineArgLocations (List.replicate 11 .f32) =
 example : Spec.SysV.argLocs [.i64, .f64, .i32, .i64, .i64, .i64, .i64, .i8, .f32] =
     [.gpr .rdi, .xmm 0, .gpr .rsi, .gpr .rdx, .gpr .rcx, .gpr .r8, .gpr .r9, .mem 16, .xmm 1] := by decide
 -- hypotheses of `call_site_partial` are satisfiable with stack arguments present
-example : (genCall [.i64, .i64, .i64, .i64, .i64, .i64, .i64, .i32, .ptr] (some .i32)).toOption.map (·.stackSize) = some 32 := rfl
+example : (genCall [.i64, .i64, .i64, .i64, .i64, .i64, .i64, .i32, .ptr] (some .i32) true).toOption.map (·.stackSize) = some 32 := rfl
 example : (genFunctionEnter [.i64, .i64, .i64, .i64, .i64, .i64, .i64, .f32, .i32]).toOption.isSome = true := rfl
 -- a frame that saves rbx (used through its alias bl) and r15, 24 bytes of locals
 example : genPrologue [.r8 3, .r32 15, .r64 0] 24 = [.push 5, .mov 5 4, .sub 32, .push 3, .push 15] := by decide
@@ -560,16 +610,16 @@ example (s0 : MState) :
     passed nor received. -/
 theorem sysv_interop_full_fails : ¬ sysv_interop_full := by
   intro h
-  obtain ⟨c, hc⟩ := h.1 (List.replicate 9 .f64) none
-  have e : genCall (List.replicate 9 .f64) none = .error .NotImplementedError := rfl
+  obtain ⟨c, hc⟩ := h.1 (List.replicate 9 .f64) none false
+  have e : genCall (List.replicate 9 .f64) none false = .error .NotImplementedError := rfl
   rw [e] at hc; cases hc
 
-example : genCall (List.replicate 9 .f64) none = .error .NotImplementedError := rfl
-example : genCall [.i64, .i64, .i64, .i64, .i64, .i64, .i8] none = .error .NotImplementedError := rfl
+example : genCall (List.replicate 9 .f64) none false = .error .NotImplementedError := rfl
+example : genCall [.i64, .i64, .i64, .i64, .i64, .i64, .i8] none true = .error .NotImplementedError := rfl
 example : genFunctionEnter [.i64, .i64, .i64, .i64, .i64, .i64, .i8] = .error .NotImplementedError := rfl
 example : ¬ StackArgsWordSized (List.replicate 9 .f64) := by
-  rw [← gen_call_defined_iff _ none]; rintro ⟨c, hc⟩
-  have e : genCall (List.replicate 9 .f64) none = .error .NotImplementedError := rfl
+  rw [← gen_call_defined_iff _ none false]; rintro ⟨c, hc⟩
+  have e : genCall (List.replicate 9 .f64) none false = .error .NotImplementedError := rfl
   rw [e] at hc; cases hc
 
 end Props.C40
